@@ -10,6 +10,10 @@ Case (JSON) -- see lean/CylcModel/Drv/C13.lean for the mirror description:
            label = graph qualifier of a custom output (null for standard outputs)
   expr   nested list of trigger indices, '&', '|' and sub-lists (the listify() shape)
   variant  int: selects text variants of nodes (':succeed' / ':succeeded', '+P1D' / '+PT24H', ...)
+  via    'direct' (default): expression text + node list handed straight to the real generate_triggers
+         'graph': a graph line `EXPR => _right_` (aliases, bare nodes, `?`, blanks) goes through the real
+                  GraphParser first; gline / gnodes / gideal = the line, its node texts, and the text an ideal
+                  parser hands on (filled by finish(); the observation says whether the real parser did: 'ideal')
   runs   [[op, ...], ...]   every run starts from a fresh Prerequisite
            op: ['sat', [[n, name, out], ...], flag]  flag 0 natural 1 skip-mode 2 forced
                ['unset', n, name] | ['setall']
@@ -93,6 +97,7 @@ class C13(Prop):
         'CylcModel.C13.initial_state',
         'CylcModel.C13.pre_initial_satisfied',
         'CylcModel.C13.prereq_sem_counterexample',
+        'CylcModel.C13.prereq_sem_anchored',
     ]
     statement_note = (
         'partial: for every context, trigger list, AND/OR/parenthesised expression and every sequence of '
@@ -103,8 +108,9 @@ class C13(Prop):
         'quotes, every trigger used in the expression. The regex rewrite is proved to act on each trigger text '
         'separately for ANY key set (rewrite_acts_atomwise). prereq_sem_full (no NoCollision) is false on the current '
         'code: counterexample theorem (foo | foo[-P2] at the initial point) + 4 recorded findings. Not proved: a '
-        'syntactic sufficient condition for NoCollision; the graph-text qualifier normalisation of graph_parser '
-        '(judged end to end, not modelled).')
+        'syntactic sufficient condition for NoCollision under the \\b patterns (with anchored patterns it is proved: '
+        'prereq_sem_anchored, hypothesis regenerated by probing the source); graph_parser text processing (judged end to '
+        'end, not modelled).')
     technique = ('string-level model of re.sub + locality lemma over separator-cut texts; parser correctness on rendered '
                  'expression trees; inductive invariant (cache soundness via monotonicity) over operation lists; '
                  'correspondence through the real generate_triggers/Dependency/Prerequisite objects')
@@ -120,9 +126,9 @@ class C13(Prop):
     unmodelled = [
         'non-ASCII word characters; backslashes in names/messages (string and re.sub template escapes)',
         'residues of a failed rewrite that are valid Python outside {bool(..), &, |, (), unary -} (e.g. output x next to x-1)',
-        'graph_parser._proc_dep_pair qualifier normalisation (regex substitution on the graph line): not modelled; '
-        'graph-route cases whose normalised text differs from the ideal text are left out of the model comparison and '
-        'decided by the judge alone',
+        'graph_parser (graph line -> expression text + node list): not modelled; the graph route runs the real '
+        'GraphParser and checks that it hands generate_triggers the ideal text (standard qualifiers, no blanks); a case '
+        'where it does not is left out of the model comparison and decided by the judge alone (none on the current tree)',
         'family triggers, :finish, xtriggers, suicide triggers, expanded-year cycle points, truncated datetime offsets',
     ]
     rule = ('box: 5 sets of 3 confusable atoms x 10 expression shapes x every insertion order x 4-6 contexts, all satisfaction '
@@ -158,19 +164,41 @@ class C13(Prop):
         self._mode = None
 
     def translate(self):
+        """Generated/PrereqTemplates.lean: the pieces of MESSAGE_TEMPLATE, and what the real
+        set_conditional_expr writes for one key (probed with sentinel keys), plus two behaviour bits
+        obtained by running the real function on fixed probes: is the key written with repr(), and
+        are operands matched only between operators (as opposed to \\b...\\b)."""
         from cylc.flow.prerequisite import Prerequisite
-        sat = Prerequisite.SATISFIED_TEMPLATE.split('%s')
         msg = Prerequisite.MESSAGE_TEMPLATE.split('%s')
-        if len(sat) != 4 or len(msg) != 4:
-            raise ValueError('templates do not have three %s')
+        if len(msg) != 4:
+            raise ValueError('MESSAGE_TEMPLATE does not have three %s')
+
+        def rewrite(keys):
+            pre = Prerequisite(1)
+            for k in keys:
+                pre[k] = False
+            pre.set_conditional_expr('|'.join(Prerequisite.MESSAGE_TEMPLATE % k for k in keys))
+            return pre.conditional_expression or ''
+        text = rewrite([('PPP', 'TTT', 'OOO'), ('QQQ', 'TTT', 'OOO')]).split('|')[0]
+        m = re.fullmatch(r'(.*)PPP(.*)TTT(.*)OOO(.*)', text, re.S)
+        if not m:
+            raise ValueError('cannot find the key in the rewritten text: %r' % text)
+        head, sep1, sep2, tail = m.groups()
+        quote = head[-1:]
+        if quote not in ('"', "'") or not (sep1[:1] == sep1[-1:] == sep2[:1] == sep2[-1:] == tail[:1] == quote):
+            raise ValueError('key components are not quoted as expected: %r' % text)
+        head, sep1, sep2, tail = head[:-1], sep1[1:-1], sep2[1:-1], tail[1:]
+        repr_keys = "'say \"hi\" now'" in rewrite([('1', 'foo', 'say "hi" now'), ('1', 'bar', 'x')])
+        anchored = '-bool' not in rewrite([('1', 'foo', 'x'), ('-1', 'foo', 'x')])
 
         def cl(t):
             return '[' + ', '.join("'" + (c if c not in "'\\" else '\\' + c) + "'" for c in t) + ']'
         names = ['satHead', 'satSep1', 'satSep2', 'satTail', 'msgHead', 'msgSep1', 'msgSep2', 'msgTail']
-        body = '\n'.join('def %s : List Char := %s' % (n, cl(t)) for n, t in zip(names, sat + msg))
+        body = '\n'.join('def %s : List Char := %s' % (n, cl(t)) for n, t in zip(names, [head, sep1, sep2, tail] + msg))
+        body += '\ndef reprKeys : Bool := %s\ndef anchoredRewrite : Bool := %s' % (
+            str(repr_keys).lower(), str(anchored).lower())
         return {'PrereqTemplates.lean': (
-            '/- GENERATED by harness/props/c13.py translate() from cylc/flow/prerequisite.py -- do not edit.\n'
-            '   Pieces of Prerequisite.SATISFIED_TEMPLATE and Prerequisite.MESSAGE_TEMPLATE around the three %s. -/\n'
+            '/- GENERATED by harness/props/c13.py translate() from cylc/flow/prerequisite.py -- do not edit. -/\n'
             'namespace CylcModel.Generated.PrereqTemplates\n\n' + body +
             '\n\nend CylcModel.Generated.PrereqTemplates\n')}
 
@@ -335,7 +363,8 @@ class C13(Prop):
             f(mk([T('foo', None, 'x-', 'x-'), T('bar')], [0, '|', 1])),
             f(mk([T('foo', None, 'say "hi" now', 'x'), T('bar')], [0, '|', 1])),
         ]
-        # graph route (through the real GraphParser): plain, and the graph-text-collision finding
+        # graph route (through the real GraphParser); the last four were mangled by the qualifier
+        # normalisation of the graph parser before /repo commit 1f921a7
         out += [
             f(mk([T('a'), T('b'), T('c')], [0, '&', [1, '|', 2]], via='graph', variant=3)),
             f(mk([T('a'), T('b'), T('c')], [0, '&', 1, '&', 2], via='graph', variant=0)),
@@ -369,12 +398,8 @@ class C13(Prop):
     def rand_trigs(self, rng, mode, p, icp, n, graph=False):
         fam = rng.choice(self.NAME_FAMILIES)
         if graph:
-            # names the graph parser accepts; mostly plain words (the qualifier normalisation of the graph
-            # parser is known to mangle lines with names like `a` next to `a-b`: finding graph-text-collision)
-            fam = [x for x in fam if is_word(x[-1])]
-            if rng.random() < 0.8:
-                fam = [x for x in fam if all(is_word(ch) for ch in x)]
-                fam = [x for x in fam if x not in STD and x not in ALT.values()] or ['foo', 'foo1']
+            # names the graph parser accepts as nodes, and that are not qualifier words
+            fam = [x for x in fam if is_word(x[-1]) and x not in STD and x not in ALT.values()] or ['foo', 'foo-1']
         names = rng.sample(fam, min(len(fam), rng.choice([1, 2, 2, 3])))
         step = 1 if mode == 'int' else rng.choice([6, 24])
         trigs, seen = [], set()
